@@ -7,6 +7,10 @@ import (
 	"context"
 	"sync/atomic"
 	"time"
+
+	"github.com/pingcap/kvproto/pkg/kvrpcpb"
+	"github.com/tikv/client-go/v2/kv"
+	"github.com/tikv/client-go/v2/tikvrpc"
 )
 
 // VerifC09Entry describes one cached *Region.
@@ -113,4 +117,29 @@ func VerifC09BgTick(c *RegionCache) {
 			atomic.StoreUint32(&s.livenessState, uint32(requestLiveness(context.Background(), s, c.stores)))
 		}
 	})
+}
+
+// Sync-flag bits of a cached region, for reading VerifC09Entry.SyncFlags.
+const (
+	VerifC09FlagReloadOnAccess       = needReloadOnAccess
+	VerifC09FlagExpireAfterTTL       = needExpireAfterTTL
+	VerifC09FlagDelayedReloadPending = needDelayedReloadPending
+	VerifC09FlagDelayedReloadReady   = needDelayedReloadReady
+)
+
+// VerifC09SelectReplica runs the replica choice of one replica-read (mixed) request on a cached
+// region: newReplicaSelector + nextForReplicaReadMixed, i.e. what replicaSelector.next does before
+// it builds the RPC context; the request is then dropped (caller cancelled). The randomly chosen
+// target is discarded, so the only effects are the deterministic ones of the strategy: a region
+// with a stale store epoch is marked needDelayedReloadPending, a region without any candidate
+// replica is invalidated. Returns false when there is no valid cached region.
+func VerifC09SelectReplica(c *RegionCache, id RegionVerID) bool {
+	req := tikvrpc.NewReplicaReadRequest(tikvrpc.CmdGet, &kvrpcpb.GetRequest{}, kv.ReplicaReadMixed, nil)
+	s, err := newReplicaSelector(c, id, req)
+	if err != nil || s == nil {
+		return false
+	}
+	s.attempts++
+	s.nextForReplicaReadMixed(req)
+	return true
 }
